@@ -14,8 +14,8 @@ def migration_script(r, idx, ops, fate_vec=None):
     cfg["migration"] = r.random() < 0.8
     cfg["late_us"] = r.choice([0, 0, 1000, 30000])
     cfg["keep_old_addrs"] = r.random() < 0.4       # multi-homed client: challenges to an old address still arrive
-    if r.random() < 0.3:
-        cfg["cid_lifetime_ms"] = r.choice([400, 2000])
+    if r.random() < 0.5:
+        cfg["cid_lifetime_ms"] = r.choice([150, 400, 2000])
     if fate_vec is not None:
         half = len(fate_vec) // 2
         pre = r.choice([6, 10, 16])
